@@ -31,7 +31,7 @@
 (*          check   future_common::ready()  load(acquire)     future.h:160 *)
 (*          cas     subscribe_check_ready: one compare_exchange  aw.h:124  *)
 (*          fence   subscribe_check_ready: refused            aw.h:129     *)
-(*          wait    sync(): flag.wait(false)                  aw.h:324     *)
+(*          wait    sync() / force_sync(): flag.wait(false)   aw.h:324,333 *)
 (*          op      (harness mark) the thread is between two public calls  *)
 (*                                                                         *)
 (* Construction modes (thread Ctor constructs; the other threads receive   *)
@@ -91,6 +91,39 @@
 (* calls.  Every round has its own resolver, each thread may make each     *)
 (* kind of call once per round, observations are per round.               *)
 (*                                                                         *)
+(* Blocking forms (API-form rotation, DESIGN 13.2).  The blocking waiter   *)
+(* "bl" of a handle thread enters through one of shared_future's own       *)
+(* blocking entry points.  All of them run the same protocol steps on the  *)
+(* underlying future -- co_awaiter::sync / force_sync, awaiter.h:319-335:  *)
+(* ready check, one sync_awaiter subscribed by CAS, flag.wait unless the   *)
+(* subscription was refused -- and differ in what they hand to the caller: *)
+(*   wait    f.wait()                               shared_future.h:163    *)
+(*   fwait   f.force_wait(), called by a thread in coroutine mode (a       *)
+(*           coro_queue is installed: the form exists to override the      *)
+(*           "blocking in a coroutine" assertion)   shared_future.h:171    *)
+(*   join    f.join()  "same as wait()"             shared_future.h:177    *)
+(*             these three deliver the result: the value, or they rethrow  *)
+(*             the stored exception / throw await_canceled_exception when  *)
+(*             the promise was dropped                                     *)
+(*   syncval f.sync(); then f.value()               shared_future.h:183    *)
+(*             sync() delivers nothing and never throws; the result is     *)
+(*             read through value() in the local code after it             *)
+(*   fsync   f.force_sync() in coroutine mode       shared_future.h:189    *)
+(*             delivers nothing, never throws; the caller does not read    *)
+(*             (does not touch the state any more): its observation is     *)
+(*             "synced" -- released, exactly once, not before the state is *)
+(*             ready -- and it may drop its handle, possibly the last one, *)
+(*             right after the call has returned.                          *)
+(* The form does not interact with the protocol, so instead of multiplying *)
+(* the state graph by the forms, BeginWait uses ONE form, a function of    *)
+(* the construction mode, the resolver kind, the round, the thread and the *)
+(* constant FormShift (the driver varies FormShift per configuration and   *)
+(* per seed); FreeForms = TRUE makes the form a free choice (small         *)
+(* configurations).  On a default constructed (empty) object only ready()  *)
+(* and value() are defined (NullPoll, shared_future.h:148-157); the        *)
+(* blocking forms and co_await dereference the null pointer there and are  *)
+(* not driven.                                                             *)
+(*                                                                         *)
 (* Variant = "code" is the implementation.  "notracer" (charge takes no    *)
 (* self reference), "noreset" (the tracer never gives it back) and         *)
 (* "chargeonce" (operator<< charges the tracer in the first round only)    *)
@@ -109,8 +142,14 @@ CONSTANTS H,           \* handle threads (strings)
           Fixed,       \* TRUE: repaired shared_future::operator<< (see mode shl)
           MaxRounds,   \* bound: rounds (1 = the state is armed once)
           ReArmWays,   \* subset of {"shl", "shlready", "assign"}
+          BlForms,     \* blocking forms in use: subset of {"wait", "syncval", "fsync", "join", "fwait"}
+          FormShift,   \* rotation offset of the form choice
+          FreeForms,   \* TRUE: any form of BlForms at every blocking call (multiplies the graph)
           Variant
 
+FormOrder == <<"wait", "syncval", "fsync", "join", "fwait">>
+AllForms == {FormOrder[i] : i \in 1..Len(FormOrder)}
+ASSUME BlForms \subseteq AllForms /\ (HBl # {} => BlForms # {}) /\ FormShift \in Nat /\ FreeForms \in BOOLEAN
 ASSUME Fixed \in BOOLEAN /\ Ctor \in H /\ HCo \subseteq H /\ HBl \subseteq H /\ HCb \subseteq H /\ HPoll \subseteq H
 
 R == "r"
@@ -152,13 +191,16 @@ VARIABLES
     round,     \* current round (1..MaxRounds)
     old,       \* per thread: reference it still holds on the PREVIOUS state while assigning a new one (0/1)
     oldlive,   \* live stored value of that previous state (0/1)
-    vctor      \* constructions of stored values so far
+    vctor,     \* constructions of stored values so far
+    form,      \* per thread: the blocking form of its wait in this round ("none" before)
+    threw      \* per thread: did that blocking call itself leave by an exception: "none" (not returned yet) "yes" "no"
 
 vars == <<mode, rkind, st, slot, nxt, tag, payload, nh, cref, tref, tmp, copies, vlive, vdtor,
-          rpc, cur, rest, sp, flag, pc, cop, did, seen, resumes, uaf, round, old, oldlive, vctor>>
+          rpc, cur, rest, sp, flag, pc, cop, did, seen, resumes, uaf, round, old, oldlive, vctor, form, threw>>
 
 NoRes == [tag |-> "unread", payload |-> "unread"]
 NotReady == [tag |-> "notready", payload |-> "notready"]
+Synced == [tag |-> "synced", payload |-> "synced"]     \* released by sync()/force_sync(): nothing delivered
 Result == [tag |-> tag, payload |-> payload]
 
 RECURSIVE SumOver(_, _)
@@ -173,6 +215,18 @@ ChargeModes == {"fn", "fnsync"}
 StartPc(k) == CASE k = "dtor" -> "pre_dload" [] k = "final" -> "pre_final" [] k = "none" -> "done" [] OTHER -> "pre_claim"
 TrefOn == IF Variant = "notracer" THEN 0 ELSE 1
 RPay == IF round = 1 THEN "r" ELSE "r" \o ToString(round)     \* who stores the result of the round
+
+(* the blocking form of thread h: rotation over the forms in use *)
+ModeIx == [fn |-> 0, retfut |-> 1, late |-> 2, init |-> 3, shl |-> 4,
+           async |-> 0, fnsync |-> 1, asyncsync |-> 2, setval |-> 3, setexc |-> 4, unset |-> 0]
+KindIx == [val |-> 0, exc |-> 1, drop |-> 2, dtor |-> 3, final |-> 1, none |-> 0, unset |-> 0]
+FormsInUse == SelectSeq(FormOrder, LAMBDA f : f \in BlForms)
+FormOf(h) == FormsInUse[((ModeIx[mode] + KindIx[rkind] + round + (IF h = Ctor THEN 0 ELSE 1) + FormShift) % Len(FormsInUse)) + 1]
+FormChoice(h) == IF FreeForms THEN BlForms ELSE {FormOf(h)}
+Delivers(f) == f # "fsync"
+(* wait / force_wait / join hand the result over themselves: the call returns the value or leaves by the stored
+   exception / await_canceled_exception; sync / force_sync never throw (a later value() does) *)
+ThrowsResult(f) == f \in {"wait", "fwait", "join"}
 
 (* Before Setup nothing exists; Setup(m, k) chooses the construction mode and the resolver kind and
    runs the constructing thread up to its first scheduling point (the state graph has one root, the
@@ -207,6 +261,8 @@ Init ==
     /\ old = [h \in H |-> 0]
     /\ oldlive = 0
     /\ vctor = 0
+    /\ form = [h \in H |-> "none"]
+    /\ threw = [h \in H |-> "none"]
 
 KindsOf(m) == IF m \in ReadyModes THEN {"none"} ELSE IF m = "async" THEN {"final"} ELSE RKinds
 
@@ -232,7 +288,7 @@ Setup(m, k) ==
                            ELSE CASE m \in ChargeModes -> "charge" [] m \in {"late", "init"} -> "none"
                                   [] m = "shl" /\ ~Fixed -> "none" [] OTHER -> "ctor2"]
     /\ vctor' = IF m \in {"fnsync", "setval", "asyncsync"} THEN 1 ELSE 0
-    /\ UNCHANGED <<nxt, cref, copies, vdtor, cur, rest, sp, flag, did, seen, resumes, uaf, round, old, oldlive>>
+    /\ UNCHANGED <<form, threw, nxt, cref, copies, vdtor, cur, rest, sp, flag, did, seen, resumes, uaf, round, old, oldlive>>
 
 -----------------------------------------------------------------------------
 (* helpers *)
@@ -257,6 +313,20 @@ ReadBy(o) == /\ seen' = [seen EXCEPT ![o] = Result]
 
 NodeOf(h) == IF cop[h] = "charge" THEN TR ELSE N(h, cop[h])
 
+(* the call of thread h returns: a poll, a callback run by the subscriber itself and the delivering blocking
+   forms read the result (wait / force_wait / join return or throw it, syncval reads value() after sync()
+   has returned); force_sync() hands nothing over and the state is not touched any more *)
+Release(h) ==
+    /\ IF cop[h] = "bl" /\ ~Delivers(form[h])
+         THEN /\ seen' = [seen EXCEPT ![N(h, "bl")] = Synced]
+              /\ resumes' = [resumes EXCEPT ![N(h, "bl")] = @ + 1]
+              /\ UNCHANGED uaf
+         ELSE /\ ReadBy(N(h, cop[h]))
+              /\ Touch
+    /\ threw' = IF cop[h] = "bl"
+                  THEN [threw EXCEPT ![h] = IF ThrowsResult(form[h]) /\ tag # "val" THEN "yes" ELSE "no"]
+                  ELSE threw
+
 (* the coroutine of thread h reads the result (await_resume), runs to its end, its frame is
    destroyed together with the handle it holds *)
 CoFinish(h) ==
@@ -275,7 +345,7 @@ Copy(h, g) ==
     /\ nh' = [nh EXCEPT ![g] = @ + 1]
     /\ copies' = copies + 1
     /\ Touch
-    /\ UNCHANGED <<round, old, oldlive, vctor, mode, rkind, st, slot, nxt, tag, payload, cref, tref, tmp, vlive, vdtor, rpc, cur, rest, sp, flag, pc, cop, did, seen, resumes>>
+    /\ UNCHANGED <<form, threw, round, old, oldlive, vctor, mode, rkind, st, slot, nxt, tag, payload, cref, tref, tmp, vlive, vdtor, rpc, cur, rest, sp, flag, pc, cop, did, seen, resumes>>
 
 (* ~shared_future of one handle *)
 Drop(h) ==
@@ -284,7 +354,7 @@ Drop(h) ==
     /\ nh' = [nh EXCEPT ![h] = @ - 1]
     /\ Touch
     /\ Unref
-    /\ UNCHANGED <<round, old, oldlive, vctor, mode, rkind, slot, nxt, tag, payload, cref, tref, tmp, copies, rpc, cur, rest, sp, flag, pc, cop, did, seen, resumes>>
+    /\ UNCHANGED <<form, threw, round, old, oldlive, vctor, mode, rkind, slot, nxt, tag, payload, cref, tref, tmp, copies, rpc, cur, rest, sp, flag, pc, cop, did, seen, resumes>>
 
 (* a thread is inside a constructor / get_promise() / operator<<: charge() in progress, or the pending() check
    before it.  While the future of a shared state is being (re)built the caller has exclusive access to it
@@ -304,13 +374,17 @@ Begin(h, k, first) ==
 BeginPoll(h) ==
     /\ h \in HPoll
     /\ Begin(h, "po", "pre_check")
-    /\ UNCHANGED <<round, old, oldlive, vctor, mode, rkind, st, slot, nxt, tag, payload, nh, cref, tref, tmp, copies, vlive, vdtor, rpc, cur, rest, sp, flag, seen, resumes, uaf>>
+    /\ UNCHANGED <<form, threw, round, old, oldlive, vctor, mode, rkind, st, slot, nxt, tag, payload, nh, cref, tref, tmp, copies, vlive, vdtor, rpc, cur, rest, sp, flag, seen, resumes, uaf>>
 
-(* f.wait() *)
-BeginWait(h) ==
+(* the blocking forms: f.wait() / f.sync() + f.value() / f.force_sync() / f.join() / f.force_wait()
+   (shared_future.h:163-191); all of them start with the ready check of co_awaiter::sync / force_sync;
+   the form is FormOf(h) (see the module comment) *)
+BeginWait(h, f) ==
     /\ h \in HBl /\ rpc # "nopromise"
+    /\ f \in FormChoice(h)
     /\ Begin(h, "bl", "pre_check")
-    /\ UNCHANGED <<round, old, oldlive, vctor, mode, rkind, st, slot, nxt, tag, payload, nh, cref, tref, tmp, copies, vlive, vdtor, rpc, cur, rest, sp, flag, seen, resumes, uaf>>
+    /\ form' = [form EXCEPT ![h] = f]
+    /\ UNCHANGED <<threw, round, old, oldlive, vctor, mode, rkind, st, slot, nxt, tag, payload, nh, cref, tref, tmp, copies, vlive, vdtor, rpc, cur, rest, sp, flag, seen, resumes, uaf>>
 
 (* a coroutine taking the shared_future by value is started: the frame holds its own handle;
    it runs up to the load of await_ready *)
@@ -319,21 +393,21 @@ BeginCo(h) ==
     /\ Begin(h, "co", "pre_check")
     /\ cref' = [cref EXCEPT ![h] = 1]
     /\ Touch
-    /\ UNCHANGED <<round, old, oldlive, vctor, mode, rkind, st, slot, nxt, tag, payload, nh, tref, tmp, copies, vlive, vdtor, rpc, cur, rest, sp, flag, seen, resumes>>
+    /\ UNCHANGED <<form, threw, round, old, oldlive, vctor, mode, rkind, st, slot, nxt, tag, payload, nh, tref, tmp, copies, vlive, vdtor, rpc, cur, rest, sp, flag, seen, resumes>>
 
 (* f.operator co_await().subscribe(&cb): no readiness check before the CAS.  The callback keeps no
    handle: it reads the result through the future reference it was given *)
 BeginCb(h) ==
     /\ h \in HCb /\ rpc # "nopromise"
     /\ Begin(h, "cb", "pre_cas")
-    /\ UNCHANGED <<round, old, oldlive, vctor, mode, rkind, st, slot, nxt, tag, payload, nh, cref, tref, tmp, copies, vlive, vdtor, rpc, cur, rest, sp, flag, seen, resumes, uaf>>
+    /\ UNCHANGED <<form, threw, round, old, oldlive, vctor, mode, rkind, st, slot, nxt, tag, payload, nh, cref, tref, tmp, copies, vlive, vdtor, rpc, cur, rest, sp, flag, seen, resumes, uaf>>
 
 (* default constructed object: ready() is false, value() throws value_not_ready_exception *)
 NullPoll(h) ==
     /\ pc[h] = "null_idle" /\ "np" \notin did[h]
     /\ did' = [did EXCEPT ![h] = @ \cup {"np"}]
     /\ seen' = [seen EXCEPT ![N(h, "po")] = NotReady]
-    /\ UNCHANGED <<round, old, oldlive, vctor, mode, rkind, st, slot, nxt, tag, payload, nh, cref, tref, tmp, copies, vlive, vdtor, rpc, cur, rest, sp, flag, pc, cop, resumes, uaf>>
+    /\ UNCHANGED <<form, threw, round, old, oldlive, vctor, mode, rkind, st, slot, nxt, tag, payload, nh, cref, tref, tmp, copies, vlive, vdtor, rpc, cur, rest, sp, flag, pc, cop, resumes, uaf>>
 
 (* get_promise() on the default constructed object: init_if_needed allocates the state,
    future::get_promise makes it pending, charge() runs up to its CAS *)
@@ -345,7 +419,7 @@ LateInit(h) ==
     /\ tmp' = 1
     /\ pc' = [pc EXCEPT ![h] = "pre_cas"]
     /\ cop' = [cop EXCEPT ![h] = "charge"]
-    /\ UNCHANGED <<round, old, oldlive, vctor, mode, rkind, slot, nxt, tag, payload, cref, copies, vlive, vdtor, rpc, cur, rest, sp, flag, did, seen, resumes, uaf>>
+    /\ UNCHANGED <<form, threw, round, old, oldlive, vctor, mode, rkind, slot, nxt, tag, payload, cref, copies, vlive, vdtor, rpc, cur, rest, sp, flag, did, seen, resumes, uaf>>
 
 (* mode init: get_promise() through a handle of the already existing fresh state: init_if_needed does
    nothing (the state and with it every other copy is kept), future::get_promise makes the state
@@ -359,7 +433,7 @@ GetPromise(h) ==
     /\ pc' = [pc EXCEPT ![h] = "pre_cas"]
     /\ cop' = [cop EXCEPT ![h] = "charge"]
     /\ Touch
-    /\ UNCHANGED <<round, old, oldlive, vctor, mode, rkind, st, nxt, tag, payload, nh, cref, copies, vlive, vdtor, rpc, cur, rest, sp, flag, did, seen, resumes>>
+    /\ UNCHANGED <<form, threw, round, old, oldlive, vctor, mode, rkind, st, nxt, tag, payload, nh, cref, copies, vlive, vdtor, rpc, cur, rest, sp, flag, did, seen, resumes>>
 
 (* ---- rounds: re-arming a resolved state ---- *)
 Quiescent == /\ rpc = "done" /\ slot = "ready" /\ st = "alive" /\ tref = 0 /\ tmp = 0
@@ -371,6 +445,8 @@ NewRound ==
     /\ seen' = [o \in Obs |-> NoRes]
     /\ resumes' = [o \in Obs |-> 0]
     /\ flag' = [g \in H |-> FALSE]
+    /\ form' = [g \in H |-> "none"]
+    /\ threw' = [g \in H |-> "none"]
 
 (* `f << fn` through a handle of the resolved state (shared_future.h:197-205): init_if_needed does nothing,
    future::result_of destroys the stored result and constructs fn's future in place (fn hands the promise to
@@ -432,7 +508,7 @@ PrePload(h) ==
     /\ pc[h] = "pre_pload"
     /\ pc' = [pc EXCEPT ![h] = IF slot = "ready" THEN "post_pload_n" ELSE "post_pload_p"]
     /\ Touch
-    /\ UNCHANGED <<round, old, oldlive, vctor, mode, rkind, st, slot, nxt, tag, payload, nh, cref, tref, tmp, copies, vlive, vdtor, rpc, cur, rest, sp, flag, cop, did, seen, resumes>>
+    /\ UNCHANGED <<form, threw, round, old, oldlive, vctor, mode, rkind, st, slot, nxt, tag, payload, nh, cref, tref, tmp, copies, vlive, vdtor, rpc, cur, rest, sp, flag, cop, did, seen, resumes>>
 
 (* pending: charge(_ptr) up to its CAS (`_ptr = ptr` executed, parameter alive); else the constructor returns *)
 PostPload(h) ==
@@ -445,14 +521,14 @@ PostPload(h) ==
               /\ Touch
          ELSE /\ Idle(h)
               /\ UNCHANGED <<tref, tmp, uaf>>
-    /\ UNCHANGED <<round, old, oldlive, vctor, mode, rkind, st, slot, nxt, tag, payload, nh, cref, copies, vlive, vdtor, rpc, cur, rest, sp, flag, did, seen, resumes>>
+    /\ UNCHANGED <<form, threw, round, old, oldlive, vctor, mode, rkind, st, slot, nxt, tag, payload, nh, cref, copies, vlive, vdtor, rpc, cur, rest, sp, flag, did, seen, resumes>>
 
 (* future_common::ready(): load(acquire) == &disabled *)
 PreCheck(h) ==
     /\ pc[h] = "pre_check"
     /\ pc' = [pc EXCEPT ![h] = IF slot = "ready" THEN "post_check_r" ELSE "post_check_n"]
     /\ Touch
-    /\ UNCHANGED <<round, old, oldlive, vctor, mode, rkind, st, slot, nxt, tag, payload, nh, cref, tref, tmp, copies, vlive, vdtor, rpc, cur, rest, sp, flag, cop, did, seen, resumes>>
+    /\ UNCHANGED <<form, threw, round, old, oldlive, vctor, mode, rkind, st, slot, nxt, tag, payload, nh, cref, tref, tmp, copies, vlive, vdtor, rpc, cur, rest, sp, flag, cop, did, seen, resumes>>
 
 PostCheck(h) ==
     /\ pc[h] \in {"post_check_r", "post_check_n"}
@@ -460,18 +536,18 @@ PostCheck(h) ==
          THEN IF cop[h] = "co"
                 THEN /\ CoFinish(h)
                      /\ Touch
-                ELSE /\ ReadBy(N(h, cop[h]))
+                     /\ UNCHANGED threw
+                ELSE /\ Release(h)
                      /\ Idle(h)
-                     /\ Touch
                      /\ UNCHANGED <<cref, st, vdtor, vlive>>
          ELSE IF cop[h] = "po"
                 THEN /\ seen' = [seen EXCEPT ![N(h, "po")] = NotReady]
                      /\ Idle(h)
-                     /\ UNCHANGED <<resumes, cref, st, vdtor, vlive, uaf>>
-                ELSE (* sync(): the sync_awaiter is built, subscribe; coroutine: await_suspend *)
+                     /\ UNCHANGED <<resumes, cref, st, vdtor, vlive, uaf, threw>>
+                ELSE (* sync() / force_sync(): the sync_awaiter is built, subscribe; coroutine: await_suspend *)
                      /\ pc' = [pc EXCEPT ![h] = "pre_cas"]
-                     /\ UNCHANGED <<cop, seen, resumes, cref, st, vdtor, vlive, uaf>>
-    /\ UNCHANGED <<round, old, oldlive, vctor, mode, rkind, slot, nxt, tag, payload, nh, tref, tmp, copies, rpc, cur, rest, sp, flag, did>>
+                     /\ UNCHANGED <<cop, seen, resumes, cref, st, vdtor, vlive, uaf, threw>>
+    /\ UNCHANGED <<form, round, old, oldlive, vctor, mode, rkind, slot, nxt, tag, payload, nh, tref, tmp, copies, rpc, cur, rest, sp, flag, did>>
 
 (* one iteration of compare_exchange(_next, this) *)
 PreCAS(h) ==
@@ -485,7 +561,7 @@ PreCAS(h) ==
               /\ pc' = [pc EXCEPT ![h] = "post_cas_fail"]
               /\ UNCHANGED slot
     /\ Touch
-    /\ UNCHANGED <<round, old, oldlive, vctor, mode, rkind, st, tag, payload, nh, cref, tref, tmp, copies, vlive, vdtor, rpc, cur, rest, sp, flag, cop, did, seen, resumes>>
+    /\ UNCHANGED <<form, threw, round, old, oldlive, vctor, mode, rkind, st, tag, payload, nh, cref, tref, tmp, copies, vlive, vdtor, rpc, cur, rest, sp, flag, cop, did, seen, resumes>>
 
 PostCAS(h) ==
     /\ pc[h] \in {"post_cas_ok", "post_cas_fail"}
@@ -518,12 +594,12 @@ PostCAS(h) ==
               /\ oldlive' = 0
               /\ vdtor' = vdtor + oldlive
          ELSE UNCHANGED <<old, oldlive, vdtor>>
-    /\ UNCHANGED <<round, vctor, mode, rkind, st, slot, tag, payload, nh, cref, tref, copies, vlive, cur, rest, sp, flag, did, seen, resumes, uaf>>
+    /\ UNCHANGED <<form, threw, round, vctor, mode, rkind, st, slot, tag, payload, nh, cref, tref, copies, vlive, cur, rest, sp, flag, did, seen, resumes, uaf>>
 
 PreFence(h) ==
     /\ pc[h] = "pre_fence"
     /\ pc' = [pc EXCEPT ![h] = "post_fence"]
-    /\ UNCHANGED <<round, old, oldlive, vctor, mode, rkind, st, slot, nxt, tag, payload, nh, cref, tref, tmp, copies, vlive, vdtor, rpc, cur, rest, sp, flag, cop, did, seen, resumes, uaf>>
+    /\ UNCHANGED <<form, threw, round, old, oldlive, vctor, mode, rkind, st, slot, nxt, tag, payload, nh, cref, tref, tmp, copies, vlive, vdtor, rpc, cur, rest, sp, flag, cop, did, seen, resumes, uaf>>
 
 (* subscription refused: the caller proceeds as if ready *)
 PostFence(h) ==
@@ -538,30 +614,28 @@ PostFence(h) ==
               /\ old' = [old EXCEPT ![h] = 0]
               /\ oldlive' = IF old[h] = 1 THEN 0 ELSE oldlive
               /\ vdtor' = vdtor + (IF old[h] = 1 THEN oldlive ELSE 0)
-              /\ UNCHANGED <<seen, resumes, cref, st, vlive>>
+              /\ UNCHANGED <<seen, resumes, cref, st, vlive, threw>>
          ELSE IF cop[h] = "co"
                 THEN /\ CoFinish(h)
                      /\ Touch
-                     /\ UNCHANGED <<tref, tmp, old, oldlive>>
-                ELSE /\ ReadBy(N(h, cop[h]))
+                     /\ UNCHANGED <<tref, tmp, old, oldlive, threw>>
+                ELSE /\ Release(h)
                      /\ Idle(h)
-                     /\ Touch
                      /\ UNCHANGED <<tref, tmp, cref, st, vdtor, vlive, old, oldlive>>
-    /\ UNCHANGED <<round, vctor, mode, rkind, slot, nxt, tag, payload, nh, copies, rpc, cur, rest, sp, flag, did>>
+    /\ UNCHANGED <<form, round, vctor, mode, rkind, slot, nxt, tag, payload, nh, copies, rpc, cur, rest, sp, flag, did>>
 
 (* flag.wait(false) returns once the flag is set *)
 PreWait(h) ==
     /\ pc[h] = "pre_wait"
     /\ flag[h]
     /\ pc' = [pc EXCEPT ![h] = "post_wait"]
-    /\ UNCHANGED <<round, old, oldlive, vctor, mode, rkind, st, slot, nxt, tag, payload, nh, cref, tref, tmp, copies, vlive, vdtor, rpc, cur, rest, sp, flag, cop, did, seen, resumes, uaf>>
+    /\ UNCHANGED <<form, threw, round, old, oldlive, vctor, mode, rkind, st, slot, nxt, tag, payload, nh, cref, tref, tmp, copies, vlive, vdtor, rpc, cur, rest, sp, flag, cop, did, seen, resumes, uaf>>
 
 PostWait(h) ==
     /\ pc[h] = "post_wait"
-    /\ ReadBy(N(h, "bl"))
+    /\ Release(h)
     /\ Idle(h)
-    /\ Touch
-    /\ UNCHANGED <<round, old, oldlive, vctor, mode, rkind, st, slot, nxt, tag, payload, nh, cref, tref, tmp, copies, vlive, vdtor, rpc, cur, rest, sp, flag, did>>
+    /\ UNCHANGED <<form, round, old, oldlive, vctor, mode, rkind, st, slot, nxt, tag, payload, nh, cref, tref, tmp, copies, vlive, vdtor, rpc, cur, rest, sp, flag, did>>
 
 -----------------------------------------------------------------------------
 (* resolver: resume_chain_lk (awaiter.h:103-112) over the detached chain.  Coroutine nodes are
@@ -621,7 +695,7 @@ WalkFrom(n) ==
 PreClaim(r) ==
     /\ rpc = "pre_claim"
     /\ rpc' = "post_claim"
-    /\ UNCHANGED <<round, old, oldlive, vctor, mode, rkind, st, slot, nxt, tag, payload, nh, cref, tref, tmp, copies, vlive, vdtor, cur, rest, sp, flag, pc, cop, did, seen, resumes, uaf>>
+    /\ UNCHANGED <<form, threw, round, old, oldlive, vctor, mode, rkind, st, slot, nxt, tag, payload, nh, cref, tref, tmp, copies, vlive, vdtor, cur, rest, sp, flag, pc, cop, did, seen, resumes, uaf>>
 
 (* future::set: the value is constructed in place / the exception pointer stored (plain stores into the state) *)
 PostClaim(r) ==
@@ -634,18 +708,18 @@ PostClaim(r) ==
               /\ vlive' = IF rkind = "val" THEN 1 ELSE 0
               /\ vctor' = vctor + (IF rkind = "val" THEN 1 ELSE 0)
               /\ Touch
-    /\ UNCHANGED <<round, old, oldlive, mode, rkind, st, slot, nxt, nh, cref, tref, tmp, copies, vdtor, cur, rest, sp, flag, pc, cop, did, seen, resumes>>
+    /\ UNCHANGED <<form, threw, round, old, oldlive, mode, rkind, st, slot, nxt, nh, cref, tref, tmp, copies, vdtor, cur, rest, sp, flag, pc, cop, did, seen, resumes>>
 
 (* promise::~promise: load of the owner pointer, then resolve() *)
 PreDload(r) ==
     /\ rpc = "pre_dload"
     /\ rpc' = "post_dload"
-    /\ UNCHANGED <<round, old, oldlive, vctor, mode, rkind, st, slot, nxt, tag, payload, nh, cref, tref, tmp, copies, vlive, vdtor, cur, rest, sp, flag, pc, cop, did, seen, resumes, uaf>>
+    /\ UNCHANGED <<form, threw, round, old, oldlive, vctor, mode, rkind, st, slot, nxt, tag, payload, nh, cref, tref, tmp, copies, vlive, vdtor, cur, rest, sp, flag, pc, cop, did, seen, resumes, uaf>>
 
 PostDload(r) ==
     /\ rpc = "post_dload"
     /\ rpc' = "pre_swap"
-    /\ UNCHANGED <<round, old, oldlive, vctor, mode, rkind, st, slot, nxt, tag, payload, nh, cref, tref, tmp, copies, vlive, vdtor, cur, rest, sp, flag, pc, cop, did, seen, resumes, uaf>>
+    /\ UNCHANGED <<form, threw, round, old, oldlive, vctor, mode, rkind, st, slot, nxt, tag, payload, nh, cref, tref, tmp, copies, vlive, vdtor, cur, rest, sp, flag, pc, cop, did, seen, resumes, uaf>>
 
 (* the suspended async coroutine is resumed: co_return stores the value (async_promise::resolve),
    final_suspend calls future::resolve *)
@@ -657,7 +731,7 @@ PreFinal(r) ==
     /\ vlive' = 1
     /\ vctor' = vctor + 1
     /\ Touch
-    /\ UNCHANGED <<round, old, oldlive, mode, rkind, st, slot, nxt, nh, cref, tref, tmp, copies, vdtor, cur, rest, sp, flag, pc, cop, did, seen, resumes>>
+    /\ UNCHANGED <<form, threw, round, old, oldlive, mode, rkind, st, slot, nxt, nh, cref, tref, tmp, copies, vdtor, cur, rest, sp, flag, pc, cop, did, seen, resumes>>
 
 (* resume_chain_set_ready: exchange(&disabled); the old top of the chain is the walker's local *)
 PreSwap(r) ==
@@ -666,51 +740,53 @@ PreSwap(r) ==
     /\ rest' = slot
     /\ rpc' = "post_swap"
     /\ Touch
-    /\ UNCHANGED <<round, old, oldlive, vctor, mode, rkind, st, nxt, tag, payload, nh, cref, tref, tmp, copies, vlive, vdtor, cur, sp, flag, pc, cop, did, seen, resumes>>
+    /\ UNCHANGED <<form, threw, round, old, oldlive, vctor, mode, rkind, st, nxt, tag, payload, nh, cref, tref, tmp, copies, vlive, vdtor, cur, sp, flag, pc, cop, did, seen, resumes>>
 
 PostSwap(r) ==
     /\ rpc = "post_swap"
     /\ WalkFrom(rest)
-    /\ UNCHANGED <<round, old, oldlive, vctor, mode, rkind, slot, tag, payload, nh, tmp, copies, flag, pc, cop, did>>
+    /\ UNCHANGED <<form, threw, round, old, oldlive, vctor, mode, rkind, slot, tag, payload, nh, tmp, copies, flag, pc, cop, did>>
 
 PreFstore(r) ==
     /\ rpc = "pre_fstore"
     /\ flag' = [flag EXCEPT ![OwnerOf(cur)] = TRUE]
     /\ rpc' = "post_fstore"
-    /\ UNCHANGED <<round, old, oldlive, vctor, mode, rkind, st, slot, nxt, tag, payload, nh, cref, tref, tmp, copies, vlive, vdtor, cur, rest, sp, pc, cop, did, seen, resumes, uaf>>
+    /\ UNCHANGED <<form, threw, round, old, oldlive, vctor, mode, rkind, st, slot, nxt, tag, payload, nh, cref, tref, tmp, copies, vlive, vdtor, cur, rest, sp, pc, cop, did, seen, resumes, uaf>>
 
 PostFstore(r) ==
     /\ rpc = "post_fstore"
     /\ rpc' = "pre_notify"
-    /\ UNCHANGED <<round, old, oldlive, vctor, mode, rkind, st, slot, nxt, tag, payload, nh, cref, tref, tmp, copies, vlive, vdtor, cur, rest, sp, flag, pc, cop, did, seen, resumes, uaf>>
+    /\ UNCHANGED <<form, threw, round, old, oldlive, vctor, mode, rkind, st, slot, nxt, tag, payload, nh, cref, tref, tmp, copies, vlive, vdtor, cur, rest, sp, flag, pc, cop, did, seen, resumes, uaf>>
 
 PreNotify(r) ==
     /\ rpc = "pre_notify"
     /\ rpc' = "post_notify"
-    /\ UNCHANGED <<round, old, oldlive, vctor, mode, rkind, st, slot, nxt, tag, payload, nh, cref, tref, tmp, copies, vlive, vdtor, cur, rest, sp, flag, pc, cop, did, seen, resumes, uaf>>
+    /\ UNCHANGED <<form, threw, round, old, oldlive, vctor, mode, rkind, st, slot, nxt, tag, payload, nh, cref, tref, tmp, copies, vlive, vdtor, cur, rest, sp, flag, pc, cop, did, seen, resumes, uaf>>
 
 PostNotify(r) ==
     /\ rpc = "post_notify"
     /\ WalkFrom(rest)
-    /\ UNCHANGED <<round, old, oldlive, vctor, mode, rkind, slot, tag, payload, nh, tmp, copies, flag, pc, cop, did>>
+    /\ UNCHANGED <<form, threw, round, old, oldlive, vctor, mode, rkind, slot, tag, payload, nh, tmp, copies, flag, pc, cop, did>>
 
 -----------------------------------------------------------------------------
 ResolverStep(r) == \/ PreClaim(r) \/ PostClaim(r) \/ PreDload(r) \/ PostDload(r) \/ PreFinal(r)
                    \/ PreSwap(r) \/ PostSwap(r) \/ PreFstore(r) \/ PostFstore(r) \/ PreNotify(r) \/ PostNotify(r)
 
-HandleStep(h) == \/ Drop(h) \/ BeginPoll(h) \/ BeginWait(h) \/ BeginCo(h) \/ BeginCb(h) \/ NullPoll(h) \/ LateInit(h) \/ GetPromise(h)
+HandleStep(h) == \/ Drop(h) \/ BeginPoll(h) \/ BeginCo(h) \/ BeginCb(h) \/ NullPoll(h) \/ LateInit(h) \/ GetPromise(h)
                  \/ PrePload(h) \/ PostPload(h) \/ PreCheck(h) \/ PostCheck(h) \/ PreCAS(h) \/ PostCAS(h)
                  \/ PreFence(h) \/ PostFence(h) \/ PreWait(h) \/ PostWait(h)
                  \/ \E g \in H : Copy(h, g)
+                 \/ \E f \in AllForms : BeginWait(h, f)
                  \/ \E k \in RKinds \cup {"ready"} : ReArmShl(h, k) \/ ReArmAssign(h, k)
 
 Next == \/ \E m \in Modes : \E k \in KindsOf(m) : Setup(m, k)
         \/ \E r \in {R} : PreClaim(r) \/ PostClaim(r) \/ PreDload(r) \/ PostDload(r) \/ PreFinal(r)
                           \/ PreSwap(r) \/ PostSwap(r) \/ PreFstore(r) \/ PostFstore(r) \/ PreNotify(r) \/ PostNotify(r)
-        \/ \E h \in H : \/ Drop(h) \/ BeginPoll(h) \/ BeginWait(h) \/ BeginCo(h) \/ BeginCb(h) \/ NullPoll(h) \/ LateInit(h) \/ GetPromise(h)
+        \/ \E h \in H : \/ Drop(h) \/ BeginPoll(h) \/ BeginCo(h) \/ BeginCb(h) \/ NullPoll(h) \/ LateInit(h) \/ GetPromise(h)
                         \/ PrePload(h) \/ PostPload(h) \/ PreCheck(h) \/ PostCheck(h) \/ PreCAS(h) \/ PostCAS(h)
                         \/ PreFence(h) \/ PostFence(h) \/ PreWait(h) \/ PostWait(h)
         \/ \E h \in H : \E g \in H : Copy(h, g)
+        \/ \E h \in H : \E f \in AllForms : BeginWait(h, f)
         \/ \E h \in H : \E k \in RKinds \cup {"ready"} : ReArmShl(h, k) \/ ReArmAssign(h, k)
 
 Fair == /\ WF_vars(\E m \in Modes : \E k \in KindsOf(m) : Setup(m, k))
@@ -737,6 +813,8 @@ TypeOK ==
     /\ rpc \in RPcs
     /\ vlive \in {0, 1} /\ oldlive \in {0, 1} /\ round \in 1..MaxRounds
     /\ \A h \in H : old[h] \in {0, 1}
+    /\ \A h \in H : form[h] \in BlForms \cup {"none"} /\ (form[h] # "none" <=> "bl" \in did[h])
+    /\ \A h \in H : threw[h] \in {"none", "yes", "no"}
 
 Terminal == /\ mode # "unset"
             /\ rpc = "done"
@@ -784,7 +862,15 @@ NoUseAfterFree ==
     /\ rpc \in {"post_claim", "pre_final", "pre_swap"} => st = "alive"
 
 (* one result for everybody *)
-SameResultForAll == \A o \in Obs : resumes[o] > 0 => seen[o] = Result
+(* ... except that sync()/force_sync() alone hand nothing over (and the caller does not read) *)
+Expected(o) == IF o \in BlN /\ ~Delivers(form[OwnerOf(o)]) THEN Synced ELSE Result
+SameResultForAll == \A o \in Obs : resumes[o] > 0 => seen[o] = Expected(o)
+(* wait() / force_wait() / join() leave by an exception exactly when the result is not a value (the stored
+   exception, await_canceled_exception for a dropped promise); sync() / force_sync() never throw *)
+ThrowsAsDocumented ==
+    \A h \in H : /\ (threw[h] # "none") <=> (resumes[N(h, "bl")] > 0)
+                 /\ threw[h] = "yes" => (ThrowsResult(form[h]) /\ slot = "ready" /\ tag # "val")
+                 /\ threw[h] = "no" => (~ThrowsResult(form[h]) \/ tag = "val")
 ResultStable == [][(slot = "ready" /\ round' = round) => UNCHANGED <<tag, payload, slot>>]_vars
 NoEarlyWake == \A o \in Obs : resumes[o] > 0 => slot = "ready"
 ExactlyOnce == \A o \in Obs : resumes[o] <= 1
